@@ -1494,7 +1494,7 @@ class AbelianArray(BlockBase):
 
     @classmethod
     def from_blocks(
-        cls, blocks, duals, charge=None, symmetry=symmetry, **kwargs
+        cls, blocks, duals, charge=None, symmetry=None, **kwargs
     ):
         """Create a block array from a dictionary of blocks and sequence of
         duals.
